@@ -143,7 +143,7 @@ def _hparams(m, n):
 def conds(tier):
     q = tier == "quick"
     cs = []
-    for (m, n) in ([(2, 3), (3, 3), (3, 4)] if q else [(2, 3), (3, 3), (3, 4), (4, 4), (3, 5), (4, 5)]):
+    for (m, n) in ([(2, 3), (3, 3), (3, 4)] if q else [(2, 3), (3, 3), (3, 4), (4, 4), (3, 5)]):
         # head index pre: h_i < max arity is enforced by taking it modulo the arity; restrict to h_i < n - (m-1-i)... keep simple
         sh = ["ra"]
         if m * n >= 12:
